@@ -308,3 +308,15 @@ package parser
 //@   modifies *
 //@   loop 0 invariant inputOK(pi) && pi.s == old(pi.s) && old(pi.charIndex) <= pi.charIndex
 //@   ensures inputOK(pi) && pi.s == old(pi.s) && old(pi.charIndex) <= pi.charIndex
+
+// ---------------------------------------------------------------------------
+// C08 (partial: constant attributes only). The parser stores the value of a constant attribute HTML-unescaped
+// (constantAttributeParser: html.UnescapeString), so what the formatter writes for it has to read back as the same
+// attribute: name, '=', a quote, a value text that does not contain that quote raw, the same quote - and the value
+// text has to unescape to the stored value.
+//@ spec vtext(ca, r) = sub(r, len(ca.Name) + 2, len(r) - 1)
+//@ func (ConstantAttribute) String [C08]
+//@   ensures len(result) >= len(ca.Name) + 3 && isPrefix(cat(ca.Name, "="), result)
+//@   ensures implies(!ca.SingleQuote, sub(result, len(ca.Name) + 1, len(ca.Name) + 2) == "\"" && sub(result, len(result) - 1, len(result)) == "\"" && inL(vtext(ca, result), NO_22_STAR))
+//@   ensures implies(ca.SingleQuote, sub(result, len(ca.Name) + 1, len(ca.Name) + 2) == "'" && sub(result, len(result) - 1, len(result)) == "'" && inL(vtext(ca, result), NO_27_STAR))
+//@   ensures html.UnescapeString(vtext(ca, result)) == ca.Value
